@@ -392,6 +392,22 @@ func checkDec(tt *testing.T, c DecCase) (pbt.Info, error) {
 				return info, fmt.Errorf("%s: user code did not run but the response is not an error (%v)", where, derr)
 			}
 		}
+		// a zero timeout is grammatical: whether user code still runs is open,
+		// but if it does, its context carries that (already expired) deadline
+		// — never none
+		num := c.Header
+		if c.Protocol != "connect" && len(num) > 0 {
+			num = num[:len(num)-1]
+		}
+		if len(calls) == 1 && num != "" && strings.Trim(num, "0") == "" {
+			info.Label("zero-timeout-and-user-code-ran")
+			if !calls[0].HasDeadline {
+				return info, fmt.Errorf("%s: zero timeout, user code ran WITHOUT a deadline", where)
+			}
+			if got := calls[0].Deadline.Sub(start); got > 0 {
+				return info, fmt.Errorf("%s: zero timeout, but the handler's deadline is start+%v", where, got)
+			}
+		}
 	}
 	return info, nil
 }
@@ -405,6 +421,13 @@ var specDec = pbt.Spec[DecCase]{
 		switch rapid.IntRange(0, 4).Draw(t, "hclass") {
 		case 0, 1:
 			// grammatical
+			if rapid.IntRange(0, 9).Draw(t, "zero") == 0 {
+				c.Header = strings.Repeat("0", rapid.IntRange(1, 8).Draw(t, "nzeros"))
+				if c.Protocol != "connect" {
+					c.Header += rapid.SampledFrom([]string{"H", "M", "S", "m", "u", "n"}).Draw(t, "unit")
+				}
+				break
+			}
 			if c.Protocol == "connect" {
 				n := rapid.IntRange(1, 10).Draw(t, "ndigits")
 				c.Header = rapid.StringMatching(fmt.Sprintf("[0-9]{%d}", n)).Draw(t, "digits")
